@@ -9,6 +9,11 @@ import time
 sys.path.insert(0, os.path.dirname(os.path.dirname(os.path.abspath(__file__))))
 
 
+# scenarios shared by several properties (native/<name>.py with run_extra(add) and replay(case)); a replay case of one of
+# them carries {'extra': <name>}
+EXTRA = {'C01': ['childsel'], 'C03': ['childsel'], 'C06': ['childsel'], 'C08': ['childsel'], 'C10': ['childsel']}
+
+
 def main():
     ap = argparse.ArgumentParser()
     ap.add_argument('prop')
@@ -23,11 +28,26 @@ def main():
     if a.replay:
         case = json.load(open(a.replay))
         case = case.get('case', case)
+        if isinstance(case, dict) and case.get('extra'):
+            mod = importlib.import_module('native.' + case['extra'])
         ok, msg = mod.replay(case)
         print(('REPRODUCED: ' if ok else 'NOT-REPRODUCED: ') + msg)
         sys.exit(1 if ok else 0)
     t = time.time()
     res = mod.run(a.budget, a.seed, a.tier)
+    for name in EXTRA.get(a.prop.upper(), ()):
+        xm = importlib.import_module('native.' + name)
+        have = {f['key'] for f in res.get('findings', [])}
+        added = {}
+
+        def add(key, summary, case):
+            if key not in have and key not in added:
+                added[key] = {'key': key, 'summary': summary, 'case': case}
+        n = xm.run_extra(add)
+        res['findings'] = list(res.get('findings', [])) + [added[k] for k in sorted(added)]
+        res['cases'] = res.get('cases', 0) + n
+        res['bound'] = (res.get('bound', '') + ' Shared scenario %s: %d cases (%s).'
+                        % (name, n, (xm.__doc__ or '').strip().splitlines()[0]))
     res['wall_s'] = round(time.time() - t, 2)
     sys.stdout.write('\n@@RESULT@@' + json.dumps(res, default=str) + '\n')
 
